@@ -624,6 +624,43 @@ def r26_num_exact(c, facts, rule='C02.R26'):
     c.floor(R, 'cast expressions examined in oal_compiler and oal_openapi', n, 20)
 
 
+EVERY_ELEMENT = [      # frozen: the loops of the evaluator that turn each child of a syntax node into an element of the value
+    ('eval_uri_template', 'UriSegment', 'a segment of the template is a segment of the path (a trailing separator is the empty last segment)'),
+    ('eval_object', 'NodeRef', 'a property written in the object is a property of the schema'),
+    ('eval_program', 'Resource', 'a `res` statement is a relation of the specification'),
+    ('eval_transfer', 'Method', 'a method listed on the transfer is a method of it'),
+    ('eval_variadic_operation', 'NodeRef', 'an operand is a member of the operation'),
+    ('eval_application', 'Binding', 'a parameter is bound to its argument'),
+]
+
+
+def r27_every_element(c, facts, rule='C02.R27'):
+    """the evaluator's loops over the children of a syntax node store something for every child: no path leads from the
+    head of an iteration to the next one without passing a store (push / insert / extend / indexed assignment) or the
+    error exit. A `continue` that drops the empty last segment of `/items/` emits the path item under `/items`."""
+    R = c.rule(rule, 'EVERY-ELEMENT: in the evaluator\'s loops over syntax children every iteration stores an element (or fails): nothing written is skipped')
+    n = 0
+    for short, item, why in EVERY_ELEMENT:
+        fn = facts.normalised(c.anchor(R, 'oal_compiler::eval::' + short))
+        loops = [(b, t) for b, t in P.call_blocks(fn, 'Iterator::next') if item in fn.mir['locals'][t['dest']['l']]['ty']]
+        if not loops:
+            c.skip(R, short, 'no loop over %s items (an iterator chain is read by the other rules of C02)' % item)
+            continue
+        stores = {bb for bb, tt in fn.calls() if callee_of(tt) and P.strip(callee_of(tt)['def']).split('::')[-1] in ('push', 'insert', 'extend', 'index_mut', 'insert_full', 'push_back')}
+        err = P.err_blocks(fn)
+        for b, t in loops:
+            n += 1
+            inst = {'fn': short, 'items': item, 'why': why}
+            if b in fn.reachable_from(t['target'], avoid=stores | err) and stores:
+                # the exhausted edge leaves the loop; only a way back to next() counts
+                c.bad(R, '%s:element-skipped:%s' % (short, item), '%s can go on to the next %s without having stored anything for the present one: %s' % (short, item, why), **inst)
+            elif not stores:
+                c.skip(R, short, 'no store call found in the loop')
+            else:
+                c.ok(R, inst)
+    c.floor(R, 'loops over syntax children', n, 6)
+
+
 def r18_per_content(c, facts, rule='C02.R18'):
     """a response has headers and a description whether or not it has a body: in the loop over the contents of a
     transfer the two are taken from every content - not only from those with a schema (`<status=201, headers={..}>`)"""
@@ -925,6 +962,7 @@ def run(c, facts):
     c.run(r18_per_content, facts)
     c.run(r19_precedence, facts)
     c.run(r21_annotation_precedence, facts)
+    c.run(r27_every_element, facts)
     c.run(r26_num_exact, facts)
     c.run(r25_annotation_scope, facts)
     import c13 as _c13w
